@@ -454,3 +454,54 @@ package io
 //@   use decleaf
 //@   atmake [allocation_bounded_by_what_was_read] makecap <= len(dec.buf)
 //@   ensures [result_never_aliases_the_input] result != nil ==> isnew(arr(result))
+
+//@ func GetConverter
+//@   havoc
+
+// ---- composite decoders ------------------------------------------------------------------------
+//
+// The value decoders below the leaf readers go through reflect2 (unsafe, outside the verifier's
+// subset) and through user-registered decoders. Their contract towards the verified code is
+// assumed, not proved: they keep the window well formed and do not touch ghost state other than
+// the reader position. What IS proved for the functions that use them: every index, slice and
+// allocation they perform themselves is in bounds for all wire contents.
+
+//@ template decany
+//@   havoc
+//@   use decwf
+//@   modifies ghost.rpos[ival(dec.reader)]
+
+//@ funcs \(\*Decoder\)\.(decode[A-Z][A-Za-z0-9]*|decode|Decode|defaultDecode|decodeError|decodeStringError|ReadObject|readObject|readObjectAsMap|fastDecode|fastDecodePtr) : template decany
+
+//@ func makeStructInfo
+//@   havoc
+
+// a class definition: name, field count (validated), field names
+//@ func (*Decoder).ReadStruct
+//@   prop C04
+//@   havoc
+//@   use decwf
+//@   modifies ghost.rpos[ival(dec.reader)]
+//@   atmake [allocation_bounded_by_the_rest_of_the_input] dec.reader != nil || makecap <= dec.tail - dec.head
+//@   loop 1 invariant [shape] 0 <= i && count >= 0 && len(names) == count && 0 <= dec.head && dec.head <= dec.tail && dec.tail <= len(dec.buf)
+//@   loop 1 invariant [room] dec.reader != nil ==> (dec.buf == nil || len(dec.buf) > 0) && ghost.rpos[ival(dec.reader)] >= dec.tail
+//@   loop 1 invariant [coupling] dec.reader != nil ==> forall(j, off(dec.buf) + dec.head, off(dec.buf) + dec.tail, mem(dec.buf, j) == ghost.rstream[ival(dec.reader)][ghost.rpos[ival(dec.reader)] - dec.tail - off(dec.buf) + j])
+//@   loop 1 invariant [memory] dec.reader == nil ==> same(dec.buf, old(dec.buf)) && dec.tail == old(dec.tail)
+//@   loop 1 invariant [memory_bytes] dec.reader == nil ==> forall(j, mem(dec.buf, j) == old(mem(dec.buf, j)))
+//@   loop 1 invariant [sticky] old(dec.Error) != nil ==> dec.Error != nil
+//@   loop 1 invariant [bufid] arr(dec.buf) == old(arr(dec.buf)) || isnew(arr(dec.buf))
+
+// a list of small integers into a []byte
+//@ func (*Decoder).readUint8Slice
+//@   prop C04
+//@   havoc
+//@   use decwf
+//@   modifies ghost.rpos[ival(dec.reader)]
+//@   atmake [allocation_bounded_by_the_rest_of_the_input] dec.reader != nil || makecap <= dec.tail - dec.head
+//@   loop 1 invariant [shape] 0 <= i && count >= 0 && len(slice) == count && 0 <= dec.head && dec.head <= dec.tail && dec.tail <= len(dec.buf)
+//@   loop 1 invariant [room] dec.reader != nil ==> (dec.buf == nil || len(dec.buf) > 0) && ghost.rpos[ival(dec.reader)] >= dec.tail
+//@   loop 1 invariant [coupling] dec.reader != nil ==> forall(j, off(dec.buf) + dec.head, off(dec.buf) + dec.tail, mem(dec.buf, j) == ghost.rstream[ival(dec.reader)][ghost.rpos[ival(dec.reader)] - dec.tail - off(dec.buf) + j])
+//@   loop 1 invariant [memory] dec.reader == nil ==> same(dec.buf, old(dec.buf)) && dec.tail == old(dec.tail)
+//@   loop 1 invariant [memory_bytes] dec.reader == nil ==> forall(j, mem(dec.buf, j) == old(mem(dec.buf, j)))
+//@   loop 1 invariant [sticky] old(dec.Error) != nil ==> dec.Error != nil
+//@   loop 1 invariant [bufid] arr(dec.buf) == old(arr(dec.buf)) || isnew(arr(dec.buf))
